@@ -27,6 +27,8 @@ pub enum Expr {
     Coinbase,
     Number,
     Gas,
+    /// BLOCKHASH of the given block number
+    BlockHash(Box<Expr>),
 }
 
 #[derive(Clone, Copy, Debug, PartialEq, Eq)]
@@ -168,6 +170,10 @@ impl Asm {
             }
             Expr::Coinbase => self.op(0x41),
             Expr::Number => self.op(0x43),
+            Expr::BlockHash(n) => {
+                self.expr(n);
+                self.op(0x40);
+            }
             Expr::Gas => self.op(0x5a),
         }
     }
